@@ -432,6 +432,65 @@ def data_exp(d):
     return 0
 
 
+def _dmat(e, sign):
+    """matrix of exact powers of two 2^(e_i + sign * e_j)"""
+    e = np.asarray(e, dtype=int)
+    return np.ldexp(1.0, e[:, None] + sign * e[None, :])
+
+
+def chscale_call(d, e):
+    """the same call with channel i multiplied by the exact power of two 2^e_i (channels recorded in
+       different units): data x -> D x, covariance lags R(k) -> D R(k) D, D = diag(2^e_i)"""
+    d = dict(d)
+    k = d["kind"]
+    e = [int(v) for v in e]
+    if k == "lwr":
+        d["r"] = hexl(arr(d["r"]) * _dmat(e, 1)[None])
+    elif k == "mar":
+        d["x"] = hexl(np.ldexp(arr(d["x"]), np.asarray(e)[:, None]))
+    elif k == "fit":
+        d["x1"], d["x2"] = _sc(d["x1"], e[0]), _sc(d["x2"], e[1])
+    else:
+        raise KeyError(k)
+    d["chscale"] = e
+    return d
+
+
+def balance(d, o):
+    """undo the per-channel units of a call (d["chscale"]) on the call AND on its observed result, by
+       exact powers of two: R(k) -> D^-1 R(k) D^-1, A(i) -> D^-1 A(i) D, sigma -> D^-1 sigma D^-1.
+       The exact solution of the block Yule-Walker system of D R D is the D-conjugate of that of R, so the
+       balanced pair (input, output) is judged by the model / the oracle exactly like an unscaled call --
+       i.e. with per-channel (unit-aware) tolerances"""
+    e = d.get("chscale")
+    if not e:
+        return d, o
+    k = d["kind"]
+    ne = [-v for v in e]
+    d, o = dict(d), dict(o)
+    del d["chscale"]
+    d["balanced_from"] = e
+    cov, coef = _dmat(ne, 1), _dmat(ne, -1)
+    if k == "lwr":
+        d["r"] = hexl(arr(d["r"]) * cov[None])
+        if "err" not in o:
+            o["a"] = hexl(arr(o["a"]).reshape(o["shape"]) * coef[None]) if int(np.prod(o["shape"])) else o["a"]
+            o["sigma"] = hexl(arr(o["sigma"]) * cov)
+    elif k == "mar":
+        d["x"] = hexl(np.ldexp(arr(d["x"]), np.asarray(ne)[:, None]))
+        if "err" not in o:
+            o["a"] = hexl(arr(o["a"]).reshape(o["shape"]) * coef[None]) if int(np.prod(o["shape"])) else o["a"]
+            o["ecov"] = hexl(arr(o["ecov"]) * cov)
+    elif k == "fit":
+        d["x1"], d["x2"] = _sc(d["x1"], ne[0]), _sc(d["x2"], ne[1])
+        if "err" not in o:
+            o["Rxx"] = hexl(arr(o["Rxx"]).reshape(o["Rxx_shape"]) * cov[:, :, None])
+            if int(np.prod(o["coef_shape"])):
+                o["coef"] = hexl(arr(o["coef"]).reshape(o["coef_shape"]) * coef[None])
+            o["ecov"] = hexl(arr(o["ecov"]) * cov)
+    return d, o
+
+
 def normalise(d, o, force=False):
     """bring a call and its observed result to unit scale by exact powers of two, so that every
        tolerance below is relative to the size of R(0) / of the data"""
@@ -514,7 +573,7 @@ def rescale_check(d, o):
     what = "the same call on the input multiplied by 2^%d (data scale 2^%d -> 2^%d) " % (j, cur, cur + j)
     if ("err" in o2) != ("err" in o):
         return Fail(key, what + "raised %s" % o2.get("err"), o2.get("err"), "the rescaled result", {"rescale_by": j})
-    n1, n2 = normalise(d, o, force=True)[1], normalise(d2, o2, force=True)[1]
+    n1, n2 = normalise(*balance(d, o), force=True)[1], normalise(*balance(d2, o2), force=True)[1]
     s1, v1 = _flat(n1)
     s2, v2 = _flat(n2)
     if s1 != s2:
@@ -532,8 +591,12 @@ def oracle(d, o):
     f = rescale_check(d, o)
     if f is not None:
         return f
-    d, o = normalise(d, o)
-    return oracle_raw(d, o)
+    e = d.get("chscale")
+    d, o = normalise(*balance(d, o))
+    f = oracle_raw(d, o)
+    if f is not None and e:
+        f.what = "channels in different units (channel i x 2^e_i, e = %s; judged after exact re-balancing): %s" % (e, f.what)
+    return f
 
 
 def oracle_raw(d, o):
@@ -1079,10 +1142,23 @@ def gen_crit(ctx, rs):
             "ecov": hexl(rand_cov(rs, p)), "p": p, "m": int(rs.randint(0, 12)), "Ntotal": int(rs.randint(40, 5000))}
 
 
+def gen_chscale(rs, nc):
+    """per-channel exponents: at least one 'small-unit' and one 'large-unit' channel, ratio 2^26 .. 2^40,
+       the others anywhere in between; centred so that the uniform magnitude classes still compose"""
+    g = int(rs.randint(26, 41)) if rs.rand() < 0.7 else int(rs.choice([26, 27, 40]))
+    e = [int(v) for v in rs.randint(0, g + 1, size=nc)]
+    lo, hi = [int(v) for v in rs.permutation(nc)[:2]]
+    e[lo], e[hi] = 0, g
+    off = int(rs.randint(-g, 1))
+    return [v + off for v in e]
+
+
 def klass(d):
     c = klass0(d)
     if d.get("scaled"):
         c += "/scale-2^%s" % ("<-20" if d["scaled"] < -20 else ("<0" if d["scaled"] < 0 else (">15" if d["scaled"] > 15 else ">=0")))
+    if d.get("chscale"):
+        c += "/channel-units-2^%d" % (max(d["chscale"]) - min(d["chscale"]))
     if d.get("long"):
         N = len((d.get("x") or [d.get("x1")])[0]) if d["kind"] != "gen" else d["N"]
         c += "/long-N%s%s" % (">2048" if N > 2048 else (">1024" if N > 1024 else "<=1024"), "" if not d.get("nok") else "/oracle-only")
@@ -1111,7 +1187,7 @@ def klass0(d):
 
 def make_case(d):
     o = run_case(d)
-    coq = case_coq(d, o)
+    coq = case_coq(*balance(d, o))      # channels in different units: K judges the exactly re-balanced pair
     c = Case(coq or "", {"call": d, "observed": o}, klass(d), nontrivial=("err" not in o))
     c.in_k = coq is not None
     return c
@@ -1141,6 +1217,13 @@ def run(ctx):
     calls = corpus_calls()
     for g, n in plan:
         calls += [g(ctx, rs) for _ in range(n)]
+    # channels recorded in different units: channel i x 2^e_i, amplitude ratios 2^26 .. 2^40 (variance ratios
+    # 2^52 .. 2^80: R(0) positive definite but far beyond any relative rank cut-off); exact powers of two
+    for n, d in enumerate(calls):
+        nch = {"lwr": lambda: arr(d["r"]).shape[1], "mar": lambda: arr(d["x"]).shape[0], "fit": lambda: 2}.get(d["kind"])
+        if nch is None or d.get("chscale") or nch() < 2 or rs.rand() >= 0.3:
+            continue
+        calls[n] = chscale_call(d, gen_chscale(rs, nch()))
     # magnitude classes: data amplitudes 2^-40 .. 2^30 (volts, tesla, raw ADC counts ...); exact powers of two
     for n, d in enumerate(calls):
         if d["kind"] != "crit" and rs.rand() < 0.6:
@@ -1178,7 +1261,9 @@ def run(ctx):
                          "repeated pairs, shuffled orders and attribute read orders; public keywords at their defaults (nlags "
                          "omitted/None = all N lags, also fed to lwr_recursion; max_order omitted; corrected omitted; "
                          "MAR_est_LWR rxx=; crosscov_vector(x, x) aliasing; C/Fortran/transposed-view r); 60% of the calls on data "
-                         "scaled by exact powers of two 2^-40..2^30, every tolerance relative to ||R(0)|| / the data, and every "
+                         "scaled by exact powers of two 2^-40..2^30; 30% of the multichannel lwr/MAR_est_LWR/fit_model calls with "
+                         "channels in different units (channel i x 2^e_i, amplitude ratios 2^26..2^40, R(k) -> D R(k) D), "
+                         "judged in K and by the oracle after exact re-balancing (D-conjugation); every tolerance relative to ||R(0)|| / the data, and every "
                          "lwr/cov/mar/fit/GrangerAnalyzer call re-run on its input rescaled by 2^j far from its own scale "
                          "(same coefficients/orders, covariances x 2^2j). "
                          "non-trivial = the call returned a value")
